@@ -14,10 +14,10 @@ pub fn contract_enumerated_parser<C: Ctx>(cx: &mut C, max_root: usize, max_add: 
     // 5 / 6 a block / line comment glued (no white-space) to the token before it: after `{`, after an identifier, after `)`, after `...`
     // 7 a line comment that runs to the end of the line and contains multi-byte characters (and a word that would lex as an item)
     // 8 a line comment, 9 a block comment between a number and its closing parenthesis; 10 compact notation without any white-space
-    let comments = cx.choose(11);
-    let between = ["", " -- c -- ", " /* c */ ", "", " /* a /*/ b */ c */ ", "", "", " -- temperature in \u{b0}C, \u{20ac} zz\n ", "", "", ""][comments];
-    let glued = ["", "", "", "", "", "/*g*/", "--g--", "", "", "", ""][comments];
-    let after_number = ["", "", "", "", "", "", "", "", " -- n --", " /* n */ ", ""][comments];
+    let comments = cx.choose(12);
+    let between = ["", " -- c -- ", " /* c */ ", "", " /* a /*/ b */ c */ ", "", "", " -- temperature in \u{b0}C, \u{20ac} zz\n ", "", "", "", ""][comments];
+    let glued = ["", "", "", "", "", "/*g*/", "--g--", "", "", "", "", ""][comments];
+    let after_number = ["", "", "", "", "", "", "", "", " -- n --", " /* n */ ", "", ""][comments];
     let compact = comments == 10;
     let in_parens = if comments == 3 { "--c--" } else { "" };
     let n_root = 1 + cx.choose(max_root);
@@ -52,6 +52,8 @@ pub fn contract_enumerated_parser<C: Ctx>(cx: &mut C, max_root: usize, max_add: 
             names.push(name);
         }
     }
+    // 11: comments in front of the closing brace that no item has consumed (a line comment, then a block comment)
+    if comments == 11 { src.push_str(" -- last\n -- (more to come)\n /* b */"); }
     src.push_str(" }");
     let src = if compact { src.replace(' ', "") } else { src };
     cx.describe(|| src.clone());
